@@ -11,7 +11,7 @@ import sys
 from collections import OrderedDict
 
 _ATOMS = (str, int, float, bool, type(None), bytes)
-IGNORED_ATTRS = {'_vh'}
+IGNORED_ATTRS = {'_vh', '_vsite'}
 
 
 def _is_type(obj):
